@@ -30,6 +30,55 @@ Section Finish.
   Variable flag : bool.
   Hypothesis Hflag : flag = true -> StronglySorted lex_lt (map fst (sel_entries V x nix m)).
 
+  Lemma finish_strong :
+    let es := sel_entries V x nix m in
+    let oshape := build_shape nix false alen in
+    match (match oshape with
+           | [] => if last_is_ellipsis ix
+                   then Ok (GArr (mkCOO [] (map fst es) (map snd es) (c_fill x)))
+                   else match es with (_, v) :: _ => Ok (GScalar v) | [] => Ok (GScalar (c_fill x)) end
+           | _ => Ok (GArr (coo_make flag oshape es (c_fill x)))
+           end) with
+    | Ok (GArr y) => c_shape y = out_shape rs /\ c_fill y = c_fill x /\ canonical V y
+                     /\ (forall j, in_range (out_shape rs) j -> den y j = den x (src_of rs j))
+                     /\ (forall j v, in_range (out_shape rs) j -> (In (j, v) (entries y) <-> In (src_of rs j, v) (entries x)))
+    | Ok (GScalar v) => out_shape rs = [] /\ v = den x (src_of rs [])
+    | Raise _ => False
+    end.
+  Proof.
+    cbv zeta. rewrite (build_shape_eq nix sh false alen Hwf Halen). fold rs. change (out_shape_aux false rs) with (out_shape rs).
+    pose proof (sel_keys_nodup V x nix Hcan Hwf m Hm_nodup Hm_mem) as Hknd.
+    pose proof (sel_keys_in_range V x nix Hwf m Hm_mem) as Hkr. fold rs in Hkr.
+    destruct (out_shape rs) as [|d0 osh] eqn:Eos.
+    - assert (Hknil : forall k, In k (map fst (sel_entries V x nix m)) -> k = []) by (intros k Hk; apply in_range_nil, Hkr, Hk).
+      destruct (last_is_ellipsis ix).
+      + destruct (result_den V x nix Hcan Hwf Harr m Hm_mem (sel_entries V x nix m) (Permutation_refl _)
+                    (nil_keys_sorted _ Hknil Hknd)) as [Hc [Hden Hent]].
+        fold rs in Hc, Hden, Hent. rewrite Eos in Hc, Hden, Hent.
+        split; [reflexivity|]. split; [reflexivity|]. split; [exact Hc|]. split; [exact Hden|exact Hent].
+      + destruct (sel_entries V x nix m) as [|[k v] r] eqn:Ese.
+        * split; [reflexivity|]. symmetry. apply den_unstored. intros Hin.
+          assert (exists v, In (src_of rs [], v) (entries x)) as [v Hv].
+          { apply (In_nth _ _ []) in Hin. destruct Hin as [p [Hp Hpt]].
+            exists (nth p (c_data x) (c_fill x)). apply (entries_x V x Hcan). exists p. auto. }
+          apply (sel_spec V x nix Hcan Hwf Harr m Hm_mem) in Hv; [|fold rs; rewrite Eos; exact I].
+          rewrite Ese in Hv. destruct Hv.
+        * split; [reflexivity|]. symmetry. apply den_stored; [assumption|].
+          assert (Hk : k = []) by (apply Hknil; left; reflexivity). subst k.
+          apply (sel_spec V x nix Hcan Hwf Harr m Hm_mem); [fold rs; rewrite Eos; exact I|]. rewrite Ese. left. reflexivity.
+    - unfold coo_make. destruct flag eqn:Ef.
+      + destruct (result_den V x nix Hcan Hwf Harr m Hm_mem _ (Permutation_refl _) (Hflag eq_refl)) as [Hc [Hden Hent]].
+        fold rs in Hc, Hden, Hent. rewrite Eos in Hc, Hden, Hent.
+        split; [reflexivity|]. split; [reflexivity|]. split; [exact Hc|]. split; [exact Hden|exact Hent].
+      + assert (Hss : StronglySorted lex_lt (map fst (sort_entries (sel_entries V x nix m)))).
+        { apply (sort_sorted V (length (d0 :: osh))); [|assumption].
+          apply Forall_forall. intros y Hy. apply (in_range_length (d0 :: osh) (fst y)).
+          apply (Hkr (fst y)). apply in_map. exact Hy. }
+        destruct (result_den V x nix Hcan Hwf Harr m Hm_mem _ (sort_perm V _) Hss) as [Hc [Hden Hent]].
+        fold rs in Hc, Hden, Hent. rewrite Eos in Hc, Hden, Hent.
+        split; [reflexivity|]. split; [reflexivity|]. split; [exact Hc|]. split; [exact Hden|exact Hent].
+  Qed.
+
   Lemma finish :
     let es := sel_entries V x nix m in
     let oshape := build_shape nix false alen in
@@ -45,37 +94,14 @@ Section Finish.
     | Raise _ => False
     end.
   Proof.
-    cbv zeta. rewrite (build_shape_eq nix sh false alen Hwf Halen). fold rs. change (out_shape_aux false rs) with (out_shape rs).
-    pose proof (sel_keys_nodup V x nix Hcan Hwf m Hm_nodup Hm_mem) as Hknd.
-    pose proof (sel_keys_in_range V x nix Hwf m Hm_mem) as Hkr. fold rs in Hkr.
-    destruct (out_shape rs) as [|d0 osh] eqn:Eos.
-    - assert (Hknil : forall k, In k (map fst (sel_entries V x nix m)) -> k = []) by (intros k Hk; apply in_range_nil, Hkr, Hk).
-      destruct (last_is_ellipsis ix).
-      + destruct (result_den V x nix Hcan Hwf Harr m Hm_mem (sel_entries V x nix m) (Permutation_refl _)
-                    (nil_keys_sorted _ Hknil Hknd)) as [Hc [Hden _]].
-        fold rs in Hc, Hden. rewrite Eos in Hc, Hden.
-        split; [reflexivity|]. split; [reflexivity|]. split; [exact Hc|exact Hden].
-      + destruct (sel_entries V x nix m) as [|[k v] r] eqn:Ese.
-        * split; [reflexivity|]. symmetry. apply den_unstored. intros Hin.
-          assert (exists v, In (src_of rs [], v) (entries x)) as [v Hv].
-          { apply (In_nth _ _ []) in Hin. destruct Hin as [p [Hp Hpt]].
-            exists (nth p (c_data x) (c_fill x)). apply (entries_x V x Hcan). exists p. auto. }
-          apply (sel_spec V x nix Hcan Hwf Harr m Hm_mem) in Hv; [|fold rs; rewrite Eos; exact I].
-          rewrite Ese in Hv. destruct Hv.
-        * split; [reflexivity|]. symmetry. apply den_stored; [assumption|].
-          assert (Hk : k = []) by (apply Hknil; left; reflexivity). subst k.
-          apply (sel_spec V x nix Hcan Hwf Harr m Hm_mem); [fold rs; rewrite Eos; exact I|]. rewrite Ese. left. reflexivity.
-    - unfold coo_make. destruct flag eqn:Ef.
-      + destruct (result_den V x nix Hcan Hwf Harr m Hm_mem _ (Permutation_refl _) (Hflag eq_refl)) as [Hc [Hden _]].
-        fold rs in Hc, Hden. rewrite Eos in Hc, Hden.
-        split; [reflexivity|]. split; [reflexivity|]. split; [exact Hc|exact Hden].
-      + assert (Hss : StronglySorted lex_lt (map fst (sort_entries (sel_entries V x nix m)))).
-        { apply (sort_sorted V (length (d0 :: osh))); [|assumption].
-          apply Forall_forall. intros y Hy. apply (in_range_length (d0 :: osh) (fst y)).
-          apply (Hkr (fst y)). apply in_map. exact Hy. }
-        destruct (result_den V x nix Hcan Hwf Harr m Hm_mem _ (sort_perm V _) Hss) as [Hc [Hden _]].
-        fold rs in Hc, Hden. rewrite Eos in Hc, Hden.
-        split; [reflexivity|]. split; [reflexivity|]. split; [exact Hc|exact Hden].
+    pose proof finish_strong as H. cbv zeta in *.
+    destruct (match build_shape nix false alen with
+              | [] => if last_is_ellipsis ix
+                      then Ok (GArr (mkCOO [] (map fst (sel_entries V x nix m)) (map snd (sel_entries V x nix m)) (c_fill x)))
+                      else match sel_entries V x nix m with (_, v) :: _ => Ok (GScalar v) | [] => Ok (GScalar (c_fill x)) end
+              | _ => Ok (GArr (coo_make flag (build_shape nix false alen) (sel_entries V x nix m) (c_fill x)))
+              end) as [[v|y]|e]; [exact H| |exact H].
+    destruct H as [H1 [H2 [H3 [H4 _]]]]. auto.
   Qed.
 End Finish.
 
@@ -327,7 +353,7 @@ Qed.
 Section GetitemArr.
   Variable V : Type.
 
-  Theorem coo_getitem_one_array_proof (kf : nat -> nat) (x : coo V) (ix : index) :
+  Theorem coo_getitem_one_array_strong (kf : nat -> nat) (x : coo V) (ix : index) :
     canonical V x -> shape_okb (c_shape x) = true -> no_zero_step ix = true ->
     one_array ix = true -> d29_clause (c_shape x) ix = true ->
     match np_index (c_shape x) ix with
@@ -335,7 +361,8 @@ Section GetitemArr.
     | Ok (sh', g) =>
       match getitem kf x ix with
       | Ok (GArr y) => c_shape y = sh' /\ c_fill y = c_fill x /\ canonical V y
-                       /\ forall j, in_range sh' j -> den y j = den x (g j)
+                       /\ (forall j, in_range sh' j -> den y j = den x (g j))
+                       /\ (forall j v, in_range sh' j -> (In (j, v) (entries y) <-> In (g j, v) (entries x)))
       | Ok (GScalar v) => sh' = [] /\ v = den x (g [])
       | Raise _ => False
       end
@@ -468,7 +495,27 @@ Section GetitemArr.
       - intros k k' u v Hkk Hu Hv. rewrite map_map in Hu, Hv. apply in_map_iff in Hu, Hv.
         destruct Hu as [p [<- _]], Hv as [q [<- _]]. cbn [fst snd]. rewrite Enix.
         rewrite !build_first by (fold fpre; exact Hfp). apply lex_lt_zeros. clear - Hkk. lia. }
-    exact (finish V x nix ix Hcan Hwf Harr m Hm_nodup Hm_mem _ Halen _ Hflag).
+    exact (finish_strong V x nix ix Hcan Hwf Harr m Hm_nodup Hm_mem _ Halen _ Hflag).
+  Qed.
+
+  Theorem coo_getitem_one_array_proof (kf : nat -> nat) (x : coo V) (ix : index) :
+    canonical V x -> shape_okb (c_shape x) = true -> no_zero_step ix = true ->
+    one_array ix = true -> d29_clause (c_shape x) ix = true ->
+    match np_index (c_shape x) ix with
+    | Raise e => getitem kf x ix = Raise e /\ e = IndexError
+    | Ok (sh', g) =>
+      match getitem kf x ix with
+      | Ok (GArr y) => c_shape y = sh' /\ c_fill y = c_fill x /\ canonical V y
+                       /\ forall j, in_range sh' j -> den y j = den x (g j)
+      | Ok (GScalar v) => sh' = [] /\ v = den x (g [])
+      | Raise _ => False
+      end
+    end.
+  Proof.
+    intros Hcan Hsh Hz Hone Hd. pose proof (coo_getitem_one_array_strong kf x ix Hcan Hsh Hz Hone Hd) as H.
+    destruct (np_index (c_shape x) ix) as [[sh' g]|e]; [|exact H].
+    destruct (getitem kf x ix) as [[v|y]|e]; [exact H| |exact H].
+    destruct H as [H1 [H2 [H3 [H4 _]]]]. auto.
   Qed.
 End GetitemArr.
 
